@@ -47,3 +47,11 @@ M("C15", "artifact-stop-at-empty-payload", "artifact.py", _AK_OLD,
   "            data = fobj.read(size)\n            if not data:\n                return\n            payload = utils.xor(data, xorkey)\n", "C15.R6")
 T("C15", "twin-artifact-log-before-yield", "artifact.py", _AK_OLD,
   "            data = fobj.read(size)\n            if len(data) != size:\n                logger.debug(\"truncated payload at %d\", pos)\n            payload = utils.xor(data, xorkey)\n")
+
+# the limit handed to bytes.find as its end bound
+_EB = lambda bound: _OLD.replace("        d = saved + block\n", "        d = saved + block\n        find_end = " + bound + "\n") \
+    .replace("            p = d.find(needle, p + 1)\n            if p == -1 or max_offset and p > max_offset:", "            p = d.find(needle, p + 1, find_end)\n            if p == -1:")
+T("C15", "twin-limit-as-find-end-buffer-relative", "utils.py", _OLD, _EB("max_offset + needle_len if max_offset else None"))
+T("C15", "twin-limit-as-find-end-file-relative", "utils.py", _OLD, _EB("max_offset - pos + len(saved) + needle_len if max_offset else len(d)"))
+M("C15", "limit-as-find-end-forgets-carry-and-needle", "utils.py", _OLD, _EB("max_offset - pos - 1 if max_offset else None"), "C15.R5")
+M("C15", "limit-as-find-end-always-applies", "utils.py", _OLD, _EB("max_offset + needle_len"), "C15.R5")
